@@ -342,6 +342,10 @@ enum Obstacle {
     DepTargetIsDir,
     AboveRoot,
     NotExportable,
+    /// the target was written earlier in this history (by another type of the same file) and is now a directory
+    ExistingTargetIsDir,
+    /// ... or has disappeared
+    ExistingTargetGone,
 }
 
 const OBSTACLES: &[Obstacle] = &[
@@ -350,7 +354,16 @@ const OBSTACLES: &[Obstacle] = &[
     Obstacle::DepTargetIsDir,
     Obstacle::AboveRoot,
     Obstacle::NotExportable,
+    Obstacle::ExistingTargetIsDir,
+    Obstacle::ExistingTargetGone,
+    Obstacle::ExistingTargetIsDir,
 ];
+
+enum Cleanup {
+    RemoveDir(PathBuf),
+    RemoveFile(PathBuf),
+    Restore(PathBuf, Vec<u8>),
+}
 
 fn run_plain(w: &World, reg: &[TypeEntry], cfg: &Config, ops: &[Op]) -> Tree {
     w.fresh();
@@ -412,7 +425,7 @@ pub fn c17(args: &Args, reg: &[TypeEntry], log: &mut Log) {
             // ---- the faulted step ----
             let root_rel = (reg[op.ty].output_path)().and_then(|p| norm_rel(cfg.dname, &p.to_string_lossy()));
             let before = snapshot(&w.root);
-            let mut cleanup: Vec<(PathBuf, bool)> = vec![]; // (path, is_dir)
+            let mut cleanup: Vec<Cleanup> = vec![];
             let mut faulted_op = op.clone();
             let mut retry = true;
             let mut target_set: BTreeSet<String> = w
@@ -430,7 +443,27 @@ pub fn c17(args: &Args, reg: &[TypeEntry], log: &mut Log) {
                     }
                     std::fs::create_dir_all(&full).unwrap();
                     // directories created on the way are legitimately there afterwards
-                    cleanup.push((full, true));
+                    cleanup.push(Cleanup::RemoveDir(full));
+                }
+                Obstacle::ExistingTargetIsDir | Obstacle::ExistingTargetGone => {
+                    let Some(rel) = root_rel.clone() else { break };
+                    let full = w.root.join(&rel);
+                    let ident = (reg[op.ty].ident)();
+                    let recorded = verif::registry_snapshot().get(&full).map_or(false, |names| names.contains(&ident));
+                    // only meaningful when the file exists, was written in this registry lifetime, and this type is not in it yet
+                    if !full.is_file() || recorded || !verif::registry_snapshot().contains_key(&full) {
+                        skipped += 1;
+                        break;
+                    }
+                    let bytes = std::fs::read(&full).unwrap();
+                    std::fs::remove_file(&full).unwrap();
+                    if obstacle == Obstacle::ExistingTargetIsDir {
+                        std::fs::create_dir(&full).unwrap();
+                        cleanup.push(Cleanup::Restore(full.clone(), bytes));
+                        cleanup.push(Cleanup::RemoveDir(full));
+                    } else {
+                        cleanup.push(Cleanup::Restore(full, bytes));
+                    }
                 }
                 Obstacle::ParentIsFile => {
                     let Some(rel) = root_rel.clone() else { break };
@@ -444,7 +477,7 @@ pub fn c17(args: &Args, reg: &[TypeEntry], log: &mut Log) {
                                 std::fs::create_dir_all(p).unwrap();
                             }
                             std::fs::write(&anc, b"i am a file").unwrap();
-                            cleanup.push((anc, false));
+                            cleanup.push(Cleanup::RemoveFile(anc));
                             placed = true;
                             break;
                         }
@@ -467,7 +500,7 @@ pub fn c17(args: &Args, reg: &[TypeEntry], log: &mut Log) {
                     }
                     let full = w.root.join(free[rng.below(free.len())]);
                     std::fs::create_dir_all(&full).unwrap();
-                    cleanup.push((full, true));
+                    cleanup.push(Cleanup::RemoveDir(full));
                 }
                 Obstacle::AboveRoot => {
                     faulted_op = Op { ty: op.ty, kind: OpKind::ExportAllTo(format!("{}x", "../".repeat(64))) };
@@ -511,19 +544,27 @@ pub fn c17(args: &Args, reg: &[TypeEntry], log: &mut Log) {
                 }
             }
             // the registry records nothing for a file that could not be written
-            for (path, _is_dir) in &cleanup {
+            for c in &cleanup {
+                let (Cleanup::RemoveDir(path) | Cleanup::RemoveFile(path)) = c else { continue };
                 let snap = verif::registry_snapshot();
-                if snap.keys().any(|k| k == path) && problem.is_none() {
-                    problem = Some(("failed-write-recorded".into(), format!("{path:?} is in the registry although the write failed")));
+                let ident = (reg[faulted_op.ty].ident)();
+                if snap.get(path).map_or(false, |names| names.contains(&ident)) && problem.is_none() {
+                    problem = Some(("failed-write-recorded".into(), format!("{ident} is recorded for {path:?} although the write failed")));
                 }
             }
             let _ = before;
             // remove the obstacle and retry the original step
-            for (path, is_dir) in cleanup.iter().rev() {
-                if *is_dir {
-                    let _ = std::fs::remove_dir(path);
-                } else {
-                    let _ = std::fs::remove_file(path);
+            for c in cleanup.iter().rev() {
+                match c {
+                    Cleanup::RemoveDir(path) => {
+                        let _ = std::fs::remove_dir(path);
+                    }
+                    Cleanup::RemoveFile(path) => {
+                        let _ = std::fs::remove_file(path);
+                    }
+                    Cleanup::Restore(path, bytes) => {
+                        let _ = std::fs::write(path, bytes);
+                    }
                 }
             }
             if retry {
